@@ -976,28 +976,246 @@ Qed.
 
 (* ------------------------------------------------------------------ the version before the repair violates C02 *)
 
-Definition refute_ops : list op :=
-  [Emit 79 85 120 []; JumboEmit 79 66 46 (repeat 7 40); Flush; Free].
+Definition refute_ops : list op := [Emit 79 85 120 []; JumboEmit 79 66 46 (repeat 7 40)].
 Definition refute_clock : list Z := [10; 20; 30; 40; 50; 60; 70; 80; 90].
 
+(* a conformant program (init, two events, flush, free; increasing clock) whose stream is invalid:
+   the jumbo event of 56 bytes leaves 8 bytes in a 64-byte buffer, the first flush marker flushes
+   again and the markers come out nested: OF[ 30, OF[ 50, OF] 60, OF] 40 *)
 Theorem valid_refuted :
-  exists cap ops clock s log,
+  exists cap ops clock,
     64 <= cap /\ forallb op_wfb ops = true /\ existsb is_free ops = false /\ clock_okb clock = true /\
     forallb user_flush_free ops = true /\
-    run false cap (ops ++ [Flush; Free]) clock = ROk (s, log) /\
-    valid_stream (disk_bytes s) = false.
+    match run false cap (ops ++ [Flush; Free]) clock with
+    | ROk (s, _) => valid_stream (disk_bytes s) = false
+    | _ => False
+    end.
 Proof.
-  exists 64, [Emit 79 85 120 []; JumboEmit 79 66 46 (repeat 7 40)], refute_clock.
-  destruct (run false 64 refute_ops refute_clock) as [[s log]| | |] eqn:E; try (vm_compute in E; discriminate).
-  exists s, log. repeat split; try (vm_compute; reflexivity); try lia.
-  - exact E.
-  - vm_compute in E. inversion E. vm_compute. reflexivity.
+  exists 64, refute_ops, refute_clock.
+  split; [lia|]. split; [vm_compute; reflexivity|]. split; [vm_compute; reflexivity|].
+  split; [vm_compute; reflexivity|]. split; [vm_compute; reflexivity|].
+  vm_compute. reflexivity.
 Qed.
 
 (* ... and the very same program is fine with the repaired version *)
 Example refute_ops_repaired :
-  match run true 64 refute_ops refute_clock with
+  match run true 64 (refute_ops ++ [Flush; Free]) refute_clock with
   | ROk (s, _) => valid_stream (disk_bytes s) = true
   | _ => False
   end.
 Proof. vm_compute. reflexivity. Qed.
+
+(* ------------------------------------------------------------------ outcomes: no fuel problem, refused calls abort, accepted calls do not *)
+
+Definition ok_or_noclock {A} (r : rres A) : Prop := (exists a, r = ROk a) \/ r = RNoClock.
+
+Lemma big_afe_outcome fx cap t0 t1 s : ok_or_noclock (big_afe fx cap t0 t1 s).
+Proof.
+  unfold big_afe, ok_or_noclock.
+  destruct fx.
+  - destruct (evlen s + 24 >=? cap); [|left; eexists; reflexivity].
+    destruct (clk s); [right; reflexivity | left; eexists; reflexivity].
+  - destruct (evlen s + 12 >=? cap).
+    + destruct (clk s) as [|? [|? ?]]; [right; reflexivity | right; reflexivity | left; eexists; reflexivity].
+    + destruct (evlen s + 24 >=? cap); [|left; eexists; reflexivity].
+      destruct (clk s) as [|? [|? ?]]; [right; reflexivity | right; reflexivity | left; eexists; reflexivity].
+Qed.
+
+Lemma big_awf_outcome fx cap chunks total s : ok_or_noclock (big_awf fx cap chunks total s).
+Proof.
+  unfold big_awf. destruct (evlen s + total >=? cap); [|left; eexists; reflexivity].
+  destruct (clk s) as [|? [|? ?]]; [right; reflexivity | right; reflexivity | apply big_afe_outcome].
+Qed.
+
+Lemma rbind_outcome {A B} (r : rres A) (f : A -> rres B) :
+  ok_or_noclock r -> (forall a, ok_or_noclock (f a)) -> ok_or_noclock (rbind r f).
+Proof. intros [[a ->] | ->] Hf; cbn [rbind]; [apply Hf | right; reflexivity]. Qed.
+
+Lemma add_normal_outcome fx cap s dl bl m c v chunks ev t :
+  64 <= cap -> Rel cap s dl bl -> build m c v chunks = Ret ev -> chunks_okb chunks = true ->
+  ok_or_noclock (ovni_ev_add fx cap FUEL (ovni_ev_set_clock ev t) s).
+Proof.
+  intros Hcap RL BE CO.
+  destruct (image_normal m c v t chunks ev BE CO) as [SZ IM]. cbn zeta in SZ, IM.
+  set (e := mkU false m c v t (concat chunks)) in *.
+  assert (Hsz : 12 <= esize e <= 28).
+  { unfold esize, e, HEADER_SIZE. cbn [u_jumbo u_data]. unfold chunks_okb in CO.
+    pose proof (zlength_nonneg (concat chunks)). lia. }
+  change FUEL with (S (S (S 1))).
+  rewrite (ev_add_eq fx cap Hcap 1%nat _ s (esize e)); [| apply RL | symmetry; exact SZ | lia].
+  apply big_awf_outcome.
+Qed.
+
+Lemma clock_now_outcome s : ok_or_noclock (clock_now s).
+Proof. unfold clock_now. destruct (clk s); [right; reflexivity | left; eexists; reflexivity]. Qed.
+
+Lemma mark_outcome fx cap s dl bl v ty va log :
+  64 <= cap -> Rel cap s dl bl ->
+  (va <> 0 -> ok_or_noclock (mark fx cap v ty va (s, log))) /\
+  (va = 0 -> mark fx cap v ty va (s, log) = RAbort).
+Proof.
+  intros Hcap RL. unfold mark. split.
+  - intros NZ. destruct (va =? 0) eqn:E0; [lia|].
+    destruct (build_ok c_O c_M v (mark_payload ty va) (mark_chunks_ok ty va)) as (ev & BE & _).
+    unfold clock_now. destruct (clk s) as [|t r]; [right; reflexivity|]. cbn [rbind]. rewrite BE.
+    apply rbind_outcome.
+    + eapply add_normal_outcome; [exact Hcap | apply Rel_set_clk; exact RL | exact BE | apply mark_chunks_ok].
+    + intros a. left. eexists. reflexivity.
+  - intros ->. reflexivity.
+Qed.
+
+Theorem step_outcome fx cap s dl bl o log :
+  64 <= cap -> Rel cap s dl bl -> op_wfb o = true ->
+  (api_okb cap o = true -> ok_or_noclock (step fx cap o (s, log))) /\
+  (api_okb cap o = false -> clk s <> [] -> step fx cap o (s, log) = RAbort).
+Proof.
+  intros Hcap RL WF. destruct o as [m c v chunks | m c v data | | ty va | ty va | ty va | ]; cbn [step api_okb].
+  - split.
+    + intros CO. destruct (build_ok m c v chunks CO) as (ev & BE & _). rewrite BE.
+      unfold clock_now. destruct (clk s) as [|t r]; [right; reflexivity|]. cbn [rbind].
+      apply rbind_outcome.
+      * eapply add_normal_outcome; [exact Hcap | apply Rel_set_clk; exact RL | exact BE | exact CO].
+      * intros a. left. eexists. reflexivity.
+    + intros CO _. rewrite (build_die m c v chunks CO). reflexivity.
+  - cbn [op_wfb] in WF. assert (Hn : zlength data < 2 ^ 32) by lia.
+    pose proof (zlength_nonneg data) as NN.
+    destruct (image_jumbo m c v 0 (zlength data) ltac:(lia)) as [_ _].
+    split.
+    + intros L. unfold clock_now. destruct (clk s) as [|t r]; [right; reflexivity|]. cbn [rbind].
+      apply rbind_outcome; [|intros a; left; eexists; reflexivity].
+      destruct (image_jumbo m c v t (zlength data) ltac:(lia)) as [PS (ev1 & PA & SZ & IM)]. cbn zeta in PS, PA.
+      unfold ovni_ev_add_jumbo. destruct RL as (R & _). cbn [ready set_clk]. rewrite R. cbn [negb].
+      rewrite PS. cbn [Z.eqb negb]. rewrite PA, SZ.
+      destruct (16 + zlength data >=? cap) eqn:E; [lia|].
+      change FUEL with (S (S 2)).
+      rewrite (awf_eq fx cap Hcap 2%nat); [apply big_awf_outcome | exact R | cbn [map snd fold_right]; lia | lia].
+    + intros L NE. unfold clock_now. destruct (clk s) as [|t r]; [congruence|]. cbn [rbind].
+      rewrite jumbo_too_large; [reflexivity | apply RL | exact Hn | lia].
+  - split; [|discriminate]. intros _.
+    apply rbind_outcome; [|intros a; left; eexists; reflexivity].
+    destruct RL as (R & _). unfold ovni_flush. rewrite R. cbn [negb].
+    unfold clock_now. destruct (clk s) as [|t0 [|t1 r]]; [right; reflexivity | right; reflexivity |].
+    cbn [rbind clk set_clk flush_evbuf]. change FUEL with (S 3).
+    rewrite (markers_fit fx cap 3%nat); [left; eexists; reflexivity | exact R | cbn; lia | cbn; lia].
+  - destruct (mark_outcome fx cap s dl bl c_LB ty va log Hcap RL) as [M1 M2]. split.
+    + intros H. apply M1. lia.
+    + intros H _. apply M2. lia.
+  - destruct (mark_outcome fx cap s dl bl c_RB ty va log Hcap RL) as [M1 M2]. split.
+    + intros H. apply M1. lia.
+    + intros H _. apply M2. lia.
+  - destruct (mark_outcome fx cap s dl bl c_EQ ty va log Hcap RL) as [M1 M2]. split.
+    + intros H. apply M1. lia.
+    + intros H _. apply M2. lia.
+  - split; [|discriminate]. intros _. destruct RL as (R & _). unfold thread_free. rewrite R. cbn [negb rbind].
+    left. eexists. reflexivity.
+Qed.
+
+(* once the thread is freed every call aborts *)
+Theorem use_after_free fx cap s o log :
+  ready s = false -> clk s <> [] -> step fx cap o (s, log) = RAbort.
+Proof.
+  intros R NE. destruct (clk s) as [|t r] eqn:EC; [congruence|].
+  assert (EA : forall ev s1, ready s1 = false -> ovni_ev_add fx cap FUEL ev s1 = RAbort).
+  { intros ev s1 R1. change FUEL with (S 3). rewrite ev_add_S. rewrite R1. reflexivity. }
+  assert (MK : forall v ty va, mark fx cap v ty va (s, log) = RAbort).
+  { intros v ty va. unfold mark. destruct (va =? 0); [reflexivity|].
+    unfold clock_now. rewrite EC. cbn [rbind].
+    destruct (build c_O c_M v (mark_payload ty va)); [|reflexivity]. rewrite EA; [reflexivity | exact R]. }
+  destruct o as [m c v chunks | m c v data | | ty va | ty va | ty va | ]; cbn [step]; try apply MK.
+  - destruct (build m c v chunks); [|reflexivity]. unfold clock_now. rewrite EC. cbn [rbind].
+    rewrite EA; [reflexivity | exact R].
+  - unfold clock_now. rewrite EC. cbn [rbind]. unfold ovni_ev_add_jumbo. cbn [ready set_clk]. rewrite R. reflexivity.
+  - unfold ovni_flush. rewrite R. reflexivity.
+  - unfold thread_free. rewrite R. reflexivity.
+Qed.
+
+(* a run never stops for lack of recursion fuel *)
+Theorem run_never_out_of_fuel fx cap ops clock :
+  64 <= cap -> forallb op_wfb ops = true -> run fx cap ops clock <> RNoFuel.
+Proof.
+  intros Hcap. unfold run.
+  assert (G : forall ops st, forallb op_wfb ops = true ->
+              ((exists dl bl, Rel cap (fst st) dl bl) \/ ready (fst st) = false) ->
+              run_from fx cap ops st <> RNoFuel).
+  { induction ops0 as [|o ops0 IH]; intros [s log] WF ST; cbn [run_from]; [discriminate|].
+    cbn [forallb] in WF. apply andb_prop in WF. destruct WF as [WF1 WF2]. cbn [fst] in ST.
+    destruct (step fx cap o (s, log)) as [[s1 log1]| | |] eqn:ES; cbn [rbind]; try discriminate.
+    - apply IH; [exact WF2|]. cbn [fst].
+      destruct ST as [(dl & bl & RL) | NR].
+      + destruct o; try (destruct (step_astep fx cap s dl bl _ log s1 log1 Hcap RL WF1 ltac:(discriminate) ES) as (_ & dl' & bl' & RL' & _);
+                         left; exists dl', bl'; exact RL').
+        right. cbn [step] in ES. unfold thread_free in ES. destruct (negb (ready s)); [discriminate|].
+        cbn [rbind] in ES. inversion ES. reflexivity.
+      + (* a freed thread: every step aborts or lacks a clock; ROk is impossible *)
+        exfalso. destruct (clk s) as [|t r] eqn:EC.
+        * destruct o; cbn [step mark] in ES; unfold clock_now, ovni_flush, thread_free in ES; rewrite ?EC, ?NR in ES; cbn [negb rbind] in ES;
+            try discriminate.
+          -- destruct (build m c v chunks); discriminate.
+          -- destruct (value =? 0); discriminate.
+          -- destruct (value =? 0); discriminate.
+          -- destruct (value =? 0); discriminate.
+        * rewrite (use_after_free fx cap s o log NR) in ES; [discriminate | congruence].
+    - (* RNoFuel from a single step: impossible *)
+      exfalso. destruct ST as [(dl & bl & RL) | NR].
+      + destruct (step_outcome fx cap s dl bl o log Hcap RL WF1) as [O1 O2].
+        destruct (api_okb cap o) eqn:AO.
+        * destruct (O1 eq_refl) as [[a Ea] | En]; congruence.
+        * destruct (clk s) as [|t r] eqn:EC.
+          -- destruct o; cbn [api_okb] in AO; try discriminate; cbn [step mark] in ES.
+             ++ rewrite (build_die m c v chunks AO) in ES. discriminate.
+             ++ unfold clock_now in ES. rewrite EC in ES. discriminate.
+             ++ destruct (value =? 0); [discriminate | lia].
+             ++ destruct (value =? 0); [discriminate | lia].
+             ++ destruct (value =? 0); [discriminate | lia].
+          -- rewrite O2 in ES; [discriminate | reflexivity | congruence].
+      + destruct (clk s) as [|t r] eqn:EC.
+        * destruct o; cbn [step mark] in ES; unfold clock_now, ovni_flush, thread_free in ES; rewrite ?EC, ?NR in ES; cbn [negb rbind] in ES;
+            try discriminate.
+          -- destruct (build m c v chunks); discriminate.
+          -- destruct (value =? 0); discriminate.
+          -- destruct (value =? 0); discriminate.
+          -- destruct (value =? 0); discriminate.
+        * rewrite (use_after_free fx cap s o log NR) in ES; [discriminate | congruence]. }
+  intros WF. apply G; [exact WF|]. left. exists [], []. apply Rel_init. exact Hcap.
+Qed.
+
+(* ------------------------------------------------------------------ statements over reachable states *)
+
+Theorem rejected_calls_abort fx cap ops clock s log o :
+  64 <= cap -> forallb op_wfb ops = true -> existsb is_free ops = false -> clock_u64b clock = true ->
+  run fx cap ops clock = ROk (s, log) ->
+  op_wfb o = true -> api_okb cap o = false -> clk s <> [] ->
+  step fx cap o (s, log) = RAbort.
+Proof.
+  intros Hcap WF NF CK H WFo AO NE.
+  destruct (run_summary fx cap ops clock s log Hcap WF NF CK H) as (_ & dl & bl & RL & _).
+  destruct (step_outcome fx cap s dl bl o log Hcap RL WFo) as [_ O2]. apply O2; assumption.
+Qed.
+
+Theorem accepted_calls_proceed fx cap ops clock s log o :
+  64 <= cap -> forallb op_wfb ops = true -> existsb is_free ops = false -> clock_u64b clock = true ->
+  run fx cap ops clock = ROk (s, log) ->
+  op_wfb o = true -> api_okb cap o = true ->
+  (exists st, step fx cap o (s, log) = ROk st) \/ step fx cap o (s, log) = RNoClock.
+Proof.
+  intros Hcap WF NF CK H WFo AO.
+  destruct (run_summary fx cap ops clock s log Hcap WF NF CK H) as (_ & dl & bl & RL & _).
+  destruct (step_outcome fx cap s dl bl o log Hcap RL WFo) as [O1 _]. apply O1. exact AO.
+Qed.
+
+Theorem completed_run_only_accepted_calls fx cap ops clock s log :
+  64 <= cap -> forallb op_wfb ops = true -> existsb is_free ops = false -> clock_u64b clock = true ->
+  run fx cap ops clock = ROk (s, log) -> forallb (api_okb cap) ops = true.
+Proof.
+  intros Hcap WF NF CK H. apply (run_summary fx cap ops clock s log Hcap WF NF CK H).
+Qed.
+
+Theorem call_after_free_aborts fx cap ops clock s log o :
+  run fx cap (ops ++ [Free]) clock = ROk (s, log) -> clk s <> [] -> step fx cap o (s, log) = RAbort.
+Proof.
+  intros H NE. apply use_after_free; [|exact NE].
+  unfold run in H. rewrite run_from_app in H.
+  destruct (run_from fx cap ops (thread_init clock, [])) as [[s1 log1]| | |]; try discriminate.
+  cbn [rbind run_from step] in H. unfold thread_free in H. destruct (negb (ready s1)); [discriminate|].
+  cbn [rbind] in H. inversion H. reflexivity.
+Qed.
